@@ -222,6 +222,30 @@ def run(ctx):
                         ok = seen == [e['total']] and np.array_equal(np.sort(np.concatenate([G.ravel() for G in Y])), np.arange(1, e['total'] + 1, dtype=float))
                         msg = 'rand_custom asked for %s numbers, specification %s, or does not place each exactly once' % (seen, e['total'])
                     ctx.check(ok, name + ':profile', '%s(%s, r=%s): %s' % (name, n, rr, msg), case=row)
+    # QTT deltas at quantisation levels far above the exhaustive table (several bytes of position bits): the single non-zero
+    # entry of core k is at bit k of the position, little-endian; negative positions count from the end
+    for q in (9, 10, 12, 16, 17, 24, 31, 40):
+        for rep in range(4):
+            pos = int(rng.integers(0, 1 << 62)) % (1 << q)
+            for p_arg in (pos, pos - (1 << q)):
+                Yv = teneva.vector_delta(q, p_arg, 2.5)
+                okv = isinstance(Yv, list) and len(Yv) == q and all(G.shape == (1, 2, 1) for G in Yv)
+                if okv:
+                    bits = [int(np.argmax(np.abs(G[0, :, 0]))) for G in Yv]
+                    okv = all(np.count_nonzero(G) == 1 for G in Yv) and bits == [(pos >> k_) & 1 for k_ in range(q)] \
+                        and abs(float(np.prod([G[0, b_, 0] for G, b_ in zip(Yv, bits)])) - 2.5) < 1e-12
+                ctx.case(key=('vdelta-big', q, p_arg), nontrivial=True)
+                ctx.check(okv, 'vector_delta:value', 'vector_delta(%d, %d, 2.5): the non-zero entry is not at the bits of the position' % (q, p_arg))
+            if q <= 31:
+                i_, j_ = pos, int(rng.integers(0, 1 << 62)) % (1 << q)
+                for ia, ja in ((i_, j_), (i_ - (1 << q), j_), (i_, j_ - (1 << q))):
+                    Ym = teneva.matrix_delta(q, ia, ja, -1.5)
+                    okm = isinstance(Ym, list) and len(Ym) == q and all(G.shape == (1, 2, 2, 1) for G in Ym)
+                    if okm:
+                        where_ = [np.argwhere(G[0, :, :, 0] != 0) for G in Ym]
+                        okm = all(len(w_) == 1 for w_ in where_) and [tuple(int(x) for x in w_[0]) for w_ in where_] == [((i_ >> k_) & 1, (j_ >> k_) & 1) for k_ in range(q)]
+                    ctx.case(key=('mdelta-big', q, ia, ja), nontrivial=True)
+                    ctx.check(okm, 'matrix_delta:value', 'matrix_delta(%d, %d, %d, -1.5): the non-zero entries are not at the bits of the position' % (q, ia, ja))
     # stable random tensor stays O(1) in any dimension
     for d in (10, 200, 2000):
         Y = teneva.rand_stab([3] * d, 4, noise=1e-12, seed=3)
